@@ -128,7 +128,7 @@ def cases(tier):
         for b in ('parser', 'cell'):
             yield ['formula', [p[0], p[1], p[2]], b]
     for kind in VOL:
-        for b in ('dict', 'file', 'deepcopy', 'json', 'compile-up', 'compile-down', 'compile-unrelated', 'array', 'name', 'vname', 'vname-file', 'vname-json'):
+        for b in ('dict', 'file', 'deepcopy', 'json', 'compile-up', 'compile-down', 'compile-unrelated', 'array', 'array2d-file', 'name', 'vname', 'vname-file', 'vname-json'):
             yield ['workbook', kind, b]
     for i in range(len(RB_ARGS)):
         for b in ('parser', 'cell'):
@@ -253,6 +253,12 @@ def run_workbook(case):
     d = wb_dict(kind)
     if builder == 'array':
         d = {P + 'A1:A2': '=%s+{0;0}' % VOL[kind], P + 'B1': '=%sA1+1' % P, P + 'C1': '=%sA2*2' % P, P + 'D1': '=%sB1+%sC1' % (P, P), P + 'K1': 5}
+    if builder == 'array2d-file':
+        # a two-column array-formula block whose spill cells hold stale cached values in the file; A1 shows a spill cell of the second column
+        d = dict(d)
+        d[P + 'M1:N2'] = '=%s+{0,0;0,0}' % VOL[kind]
+        d[P + 'A1'] = '=%sN2' % P
+        d[P + 'C1'] = '=%sM1*2' % P
     if builder == 'name':
         d = dict(d)
         d["'[b.xlsx]'!VNAME"] = '=%sA1' % P
@@ -274,7 +280,7 @@ def run_workbook(case):
         builder = chain[0]
         chain = chain[1:]
     try:
-        if builder in ('file', 'vname-file'):
+        if builder in ('file', 'vname-file', 'array2d-file'):
             import openpyxl
             wb = openpyxl.Workbook()
             ws = wb.active
@@ -283,6 +289,13 @@ def run_workbook(case):
             for k, v in d.items():
                 if not k.startswith(P):
                     wb.defined_names[k.split('!')[1]] = DefinedName(k.split('!')[1], attr_text=v[1:])
+                    continue
+                if ':' in k:
+                    from openpyxl.worksheet.formula import ArrayFormula
+                    ref = k[len(P):]
+                    ws[ref.split(':')[0]] = ArrayFormula(ref, v.replace(P, ''))
+                    for stale in ('N1', 'M2', 'N2'):
+                        ws[stale] = 999.5          # what Excel cached there when the file was saved
                     continue
                 ws[k[len(P):]] = v.replace(P, '').replace("'[b.xlsx]'!", '') if isinstance(v, str) else v
             with Scratch() as tmp:
